@@ -56,7 +56,7 @@ def source(case):
             + ("    pub r_tsec: Target<Second>,\n    pub r_tsecv: Vec<Target<Vec<Second>>>,\n" if case["kind"] == "generic_struct" else "") + "}\n")
     src += f"#[typeshare]\npub type RAlias = {t};\n"
     src += f"#[typeshare]\npub type RAliasVec = Vec<{t}>;\n"
-    src += f'#[typeshare]\n#[serde(tag = "type", content = "content")]\npub enum RHost {{ Pay({t}), PayVec(Vec<{t}>), Sv {{ f: {t}, g: Option<{t}> }}, U }}\n'
+    src += f'#[typeshare]\n#[serde(tag = "type", content = "content")]\npub enum RHost {{ Pay({t}), PayVec(Vec<{t}>), {case.get("svname", "Sv")} {{ f: {t}, g: Option<{t}> }}, U }}\n'
     return src
 
 
@@ -122,7 +122,7 @@ def sites(lang, obs, case, prefix):
         for v in h["variants"]:
             if v["wire"] in ("Pay", "PayVec") and v.get("ty"):
                 out.append(("payload" if v["wire"] == "Pay" else "payload_vec", target_leaf(v["ty"], others), None))
-            if v["wire"] == "Sv" and v.get("payload") == "newtype" and v.get("ty"):
+            if v["wire"] == case.get("svname", "Sv") and v.get("payload") == "newtype" and v.get("ty"):
                 out.append(("helper", (leaves(v["ty"], []) or [None])[0], None))      # the derived helper struct, by the name it is used
             if v.get("super"):
                 sup = v["super"] if isinstance(v["super"], str) else (leaves(v["super"], []) or [None])[0]
@@ -130,7 +130,7 @@ def sites(lang, obs, case, prefix):
             if v.get("extends"):
                 sup = (leaves(v["extends"], []) or [None])[0]
                 out.append(("variant_parent_host", sup, "host"))
-        ms = observe.struct_variant_members(lang, obs, [pre + "RHost", "RHost"], "Sv", "Sv")
+        ms = observe.struct_variant_members(lang, obs, [pre + "RHost", "RHost"], case.get("svname", "Sv"), case.get("svname", "Sv"))
         for m in ms or []:
             out.append(("vfield" if m["key"] == "f" else "vfield_opt", target_leaf(m["ty"], others), None))
     # inside the target itself: self references, its own helper, the parent of its variants
